@@ -1,3 +1,4 @@
+mod edit;
 mod fixtures;
 mod gen;
 mod gencomp;
